@@ -96,16 +96,17 @@ theorem peg_verify_sound_of_consistent (T : PegTables) (hT : T.consistent = true
 run).  Here: the generic theorems, for ANY configuration whose extracted `MARSH_EOS` offsets dominate the reads, any
 `janet_verify` / PEG verifier, any abstract type table. -/
 open JanetModel.Unmarsh.Bytes in
-theorem unmarshal_total_inbounds_of_sites_ok (C : Cfg) (hS : C.sites.ok = true) (b : Array Nat) (fuel : Nat) :
+theorem unmarshal_total_inbounds_of_sites_ok (C : Cfg) (hS : C.sites.ok = true) (hR : C.refsChecked = true) (b : Array Nat)
+    (fuel : Nat) :
     match unmarshal C b fuel with
     | .oob _ => False
     | .ok _ c => 0 < c.pos ∧ c.pos ≤ b.size
-    | _ => True := unmarshal_total_inbounds_generic C hS b fuel
+    | _ => True := unmarshal_total_inbounds_generic C hS hR b fuel
 
 open JanetModel.Unmarsh.Bytes in
-theorem unmarshal_terminates_of_sites_ok (C : Cfg) (hS : C.sites.ok = true) (b : Array Nat) (fuel : Nat)
+theorem unmarshal_terminates_of_sites_ok (C : Cfg) (hS : C.sites.ok = true) (hR : C.refsChecked = true) (b : Array Nat) (fuel : Nat)
     (hf : fuelBound C ≤ fuel) : ∀ a, unmarshal C b fuel ≠ .fuel ∧ unmarshal C b fuel ≠ .oob a :=
-  unmarshal_terminates_generic C hS b fuel hf
+  unmarshal_terminates_generic C hS hR b fuel hf
 
 namespace BytesExamples
 open JanetModel.Unmarsh.Bytes
@@ -118,10 +119,13 @@ def goodSites : Sites :=
     ubytes := ⟨some (-1), -1⟩, ensure := ⟨some 0, -1⟩ }
 
 def mk (S : Sites) : Cfg :=
-  { sites := S, verify := fun _ => true, pegVerify := fun _ _ => true, pegSizeChecked := true, abstracts := [], jopCall := 53, threads := false }
+  { sites := S, verify := fun _ => true, pegVerify := fun _ _ => true, pegSizeChecked := true, abstracts := [], jopCall := 53, threads := false,
+    refChecked := true, envRefChecked := true, defRefChecked := true }
 
 /-- non-vacuity: the hypothesis is satisfiable, and the model accepts / rejects / consumes as the C does on small images -/
-example : (mk goodSites).sites.ok = true := by decide
+example : (mk goodSites).sites.ok = true ∧ (mk goodSites).refsChecked = true := by decide
+/-- a source without the `len >= janet_v_count(st->lookup)` test: the model reads past the reference table on `da 00` -/
+example : (match unmarshal { mk goodSites with refChecked := false } #[218, 0] 20 with | .oob 100 => true | _ => false) = true := by decide
 example : (match unmarshal (mk goodSites) #[209, 3, 1, 129, 0, 201] 20 with | .ok .arr c => c.pos == 6 | _ => false) = true := by decide
 example : (match unmarshal (mk goodSites) #[209, 3, 1, 129] 20 with | .err .eos => true | _ => false) = true := by decide
 example : (match unmarshal (mk goodSites) #[206, 2, 104, 105, 7] 20 with | .ok .str c => c.pos == 4 | _ => false) = true := by decide
